@@ -5,6 +5,5 @@ cd "$(dirname "$0")"
 export CARGO_NET_OFFLINE=true
 /venv/bin/python tools/gen_lean.py >/dev/null
 (cd lean && lake build Pendulum driver)
-mkdir -p .cache
-PYO3_PYTHON=/venv/bin/python CARGO_TARGET_DIR="$PWD/.cache/rust" cargo build --release --offline --manifest-path /repo/rust/Cargo.toml
+/venv/bin/python -c "from harness import common; print('extension:', common.build_rust())"
 echo setup-ok
